@@ -33,6 +33,7 @@ func init() {
 		},
 		Strata: []fw.Stratum{
 			{Name: "op-sequences", N: fw.Const(200000, 5000000), Run: c06Seq},
+			{Name: "clock-walks", N: fw.Const(4000, 100000), Run: c06Clock},
 			{Name: "shared-sequencer", N: fw.Const(1000, 30000), Run: c06Shared, Race: true, Serial: true},
 		},
 	})
@@ -560,6 +561,83 @@ func c06Seq(c *fw.Ctx, i int) {
 	}
 	if c.WantSample() {
 		c.Sample(map[string]any{"payloader": c06PayloaderNames[pk], "mtu": mtu, "abs_send_time_id": absID, "ops": trace, "clock_hook": hooked})
+	}
+}
+
+// c06Clock: one packetizer, many Packetize calls, a clock that behaves like a clock - it advances by nanoseconds, field units,
+// milliseconds, seconds, hours, stands still, and now and then steps back a little (NTP adjustments). Every stamp must be the
+// 24-bit field of THAT call's instant: nothing may be carried over from an earlier reading.
+func c06Clock(c *fw.Ctx, i int) {
+	r := c.R
+	id := r.Range(1, 14)
+	p := rtp.NewPacketizer(1200, 96, 0x1234, &codecs.G711Payloader{}, rtp.NewFixedSequencer(1), 8000)
+	p.EnableAbsSendTime(id)
+	ns, _ := c18Instant(r, int64(400*3600e9))
+	clockNs := ns
+	if !hookSetClock(p, func() time.Time { return time.Unix(0, clockNs) }) {
+		c.Count("skipped_no_clock_hook", 1)
+		return
+	}
+	var steps []int64
+	for k := 0; k < 150; k++ {
+		var step int64
+		switch r.Intn(12) {
+		case 0:
+			step = 0
+		case 1:
+			step = int64(r.Pick(1, 2, 3814, 3815, 3816, 7629, 7630))
+		case 2:
+			step = int64(r.Intn(20000))
+		case 3, 4, 5:
+			step = int64(r.Intn(40e6)) // frame intervals
+		case 6:
+			step = int64(r.Intn(2e9))
+		case 7:
+			step = int64(r.Pick(1e9, 64e9, 63999996186, 3600e9, 3600e9+1, 3599e9)) + int64(r.Range(-3, 3))
+		case 8:
+			step = -int64(r.Pick(1, 3815, 1e6, 499e6, 501e6, 2e9)) // the clock is set back
+		default:
+			step = int64(r.Intn(1e9))
+		}
+		if clockNs+step < 0 {
+			step = 0
+		}
+		clockNs += step
+		if len(steps) < 24 {
+			steps = append(steps, step)
+		}
+		var pkts []*rtp.Packet
+		if pv, st := fw.Guard(func() { pkts = p.Packetize([]byte{1, 2, 3}, 160) }); pv != nil {
+			c.Fail("C06/panic/Packetize/"+fw.PanicFunc(st), fmt.Sprintf("Packetize panicked: %v", pv), fw.W("stack", st))
+			return
+		}
+		c.Evals(1)
+		if len(pkts) != 1 {
+			c.Fail("C06/packetize/packet-count", fmt.Sprintf("%d packets for one small fragment", len(pkts)), fw.W("call", k))
+			return
+		}
+		v := pkts[0].GetExtension(uint8(id))
+		if len(v) != 3 {
+			c.Fail("C06/packetize/abs-send-time-element", fmt.Sprintf("abs-send-time value %s", fw.Hex(v)), fw.W("call", k))
+			return
+		}
+		field := uint32(v[0])<<16 | uint32(v[1])<<8 | uint32(v[2])
+		if want := ntpField(clockNs); field != want {
+			cls := "clock-advanced"
+			if step < 0 {
+				cls = "clock-stepped-back"
+			} else if step == 0 {
+				cls = "clock-stood-still"
+			}
+			c.Fail("C06/packetize/abs-send-time-value/after-earlier-calls/"+cls, fmt.Sprintf("call %d: abs-send-time %#06x, the send instant %d ns maps to %#06x (the clock moved by %d ns since the previous call)", k, field, clockNs, want, step),
+				fw.W("first_instant_ns", ns, "first_steps_ns", steps, "call", k))
+			return
+		}
+		c.Count("abs_send_time_checked_against_injected_clock", 1)
+	}
+	c.Shapef("clock-walk|%d", (ns/1e9)%8)
+	if i == 0 {
+		c.Sample(map[string]any{"first_instant_ns": ns, "first_steps_ns": steps, "calls": 150})
 	}
 }
 
